@@ -508,6 +508,9 @@ C05_DailyConsecutive == (IsOut("out.daily") /\ outs.dcount > 1) => Ev.n = outs.d
 \* the last record is the last multiple not after the CONFIGURED end date, and there is a file with records
 C05_DailyEnd == (IsOut("out.end") /\ Ev.kind = "daily" /\ Has(Gen, "end")) => outs.dcount >= 1 /\ outs.dlast = LastMult(Gen.end, OutInt)
 C05_NoMissingFile == ~IsOut("out.missing")
+\* the run starts on the configured start date (harvest date of the preceding crop) and ends as configured: the day
+\* numbers the code derived from the date texts are those of the calendar
+C05_Begin == (l > 1 /\ Ev.ev = "run.config" /\ ix.gen > 0 /\ Has(Gen, "begin")) => Ev.begin = Gen.begin
 \* yearly: the k-th record is dated on the configured annual date of the k-th year that has this date inside the run
 RECURSIVE MonthOffset(_, _)
 MonthOffset(y, mm) == IF mm = 1 THEN 0 ELSE MonthOffset(y, mm - 1) + DaysInMonth(y, mm - 1)
@@ -520,7 +523,7 @@ C05_YearlyCount == (IsOut("out.end") /\ Ev.kind = "yearly" /\ Has(Gen, "annual")
 \* crop file: one record per harvested crop of the rotation, in rotation order, with the crop code of its entry
 C05_CropRecords == (IsOut("out.crop") /\ Has(Gen, "rotCrops")) => outs.ccount <= Len(Gen.rotCrops) /\ Ev.crop = Gen.rotCrops[outs.ccount]
 C05_CropCount == (IsOut("out.end") /\ Ev.kind = "crop") => outs.ccount = Len(hist.harv)
-C05_All == C05_Fields /\ C05_ValidDates /\ C05_DailyFirst /\ C05_DailyConsecutive /\ C05_DailyEnd /\ C05_NoMissingFile /\ C05_YearlyDates /\ C05_YearlyCount /\ C05_CropRecords /\ C05_CropCount
+C05_All == C05_Begin /\ C05_Fields /\ C05_ValidDates /\ C05_DailyFirst /\ C05_DailyConsecutive /\ C05_DailyEnd /\ C05_NoMissingFile /\ C05_YearlyDates /\ C05_YearlyCount /\ C05_CropRecords /\ C05_CropCount
 
 
 \* =============================================================================================
